@@ -418,6 +418,7 @@ static int execMain(void)
 int stepsMain(void);
 int overlapMain(void);
 int msgsMain(void);
+int ovstateMain(void);
 
 int main(int argc, char** argv)
 {
@@ -430,5 +431,6 @@ int main(int argc, char** argv)
 	else if (strcmp(mode, "steps") == 0) return stepsMain();
 	else if (strcmp(mode, "overlap") == 0) return overlapMain();
 	else if (strcmp(mode, "msgs") == 0) return msgsMain();
+	else if (strcmp(mode, "ovstate") == 0) return ovstateMain();
 	return 0;
 }
